@@ -199,30 +199,50 @@ def optional_codec(ctx, c) -> Optional[str]:
         ctx.error("C15.H", f"{c.name}.__init__ not found")
         return None
     p = A.param_names(init)[1]
-    # if p is None: self.D = A; self.V = 0 / else: self.D = B; self.V = p
-    enc = {}
-    for st in init.body:
-        if isinstance(st, ast.If) and st.orelse and A.contains_name(st.test, p):
-            # which branch encodes "undefined" is decided by evaluating the test for None; then the test must separate None from every integer object
-            probes = [("None", None), ("0", 0), ("1", 1), ("-7", -7), ("True", True), ("2**31-1", 2 ** 31 - 1), ("an integer object that is not a builtin int (numpy.int64)", G.Sym("int64", ("integer", "Integral")))]
-            try:
-                taken = {label: bool(G.peval(st.test, {p: v})) for label, v in probes}
-            except Unknown as ex_:
-                ctx.error("C15.H", f"{c.name}.__init__: discriminating test `{src(st.test)}` cannot be evaluated ({ex_})")
-                return None
-            none_branch, val_branch = (st.body, st.orelse) if taken["None"] else (st.orelse, st.body)
-            wrong = [label for label, _ in probes[1:] if taken[label] == taken["None"]]
-            ctx.check("C15.H", f"{c.name}.__init__:undefined-exactly-when-None", not wrong,
-                      f"{c.name}.__init__ decides between 'undefined' and 'integer' with `{src(st.test)}`, which sends {wrong} to the undefined encoding: a defined array entry is decoded as None", c.loc(st))
-            for name, br in (("none", none_branch), ("val", val_branch)):
-                d = {}
-                for s2 in br:
-                    if isinstance(s2, ast.Assign) and A.is_self_attr(s2.targets[0]):
-                        d[s2.targets[0].attr] = s2.value
-                enc[name] = d
-    if set(enc) != {"none", "val"}:
-        ctx.error("C15.H", f"{c.name}.__init__: `if value is None` encoding not recognised")
-        return None
+    # The constructor is executed abstractly (guards.run_block) for None and for several integer objects, whatever it is written
+    # as (if/else with field stores, a conditional expression selecting a pair, ...): the fields it leaves behind are the encoding.
+    cenv0 = {}
+    for k_ in repo.mro(c):
+        for an, (ann_, val_) in k_.attrs.items():
+            if val_ is not None and f"self.{an}" not in cenv0:
+                v_ = ev.try_eval(val_, k_.module)
+                if isinstance(v_, int):
+                    cenv0[f"self.{an}"] = v_
+    probes = [("None", None), ("0", 0), ("1", 1), ("-7", -7), ("True", True), ("2**31-1", 2 ** 31 - 1), ("an integer object that is not a builtin int (numpy.int64)", G.Sym("int64", ("integer", "Integral")))]
+    finals = {}
+    assigned = set()
+    for st_ in ast.walk(init):
+        if isinstance(st_, (ast.Assign, ast.AnnAssign)):
+            for t0 in (st_.targets if isinstance(st_, ast.Assign) else [st_.target]):
+                for t_ in (t0.elts if isinstance(t0, ast.Tuple) else [t0]):
+                    if A.is_self_attr(t_):
+                        assigned.add(A.norm(t_))
+    # module-level integer constants the constructor mentions
+    for nm_ in {n_.id for n_ in ast.walk(init) if isinstance(n_, ast.Name)}:
+        v_ = ev.try_eval(ast.Name(id=nm_, ctx=ast.Load()), c.module) if nm_ != p else None
+        if isinstance(v_, int) and not isinstance(v_, bool):
+            cenv0[nm_] = v_
+    for label, v in list(probes):
+        env_ = dict(cenv0, **{p: v})
+        try:
+            G.run_block(A.strip_docstring(init.body), env_, lambda c_, e_: None)
+        except Unknown as ex_:
+            if isinstance(v, G.Sym):
+                probes.remove((label, v))  # e.g. a range guard compares the value with integers: not decidable for an opaque integer object
+                continue
+            ctx.error("C15.H", f"{c.name}.__init__: cannot be evaluated for value={label} ({ex_})")
+            return None
+        finals[label] = {k[5:]: env_[k] for k in env_ if k in assigned}
+    # the fields holding a constant that differs between None and the value 1 are the discriminant; the field holding the value itself is the payload
+    enc = {"none": {k: ast.Constant(value=v_) for k, v_ in finals["None"].items()}, "val": {}}
+    one = finals["1"]
+    for k, v_ in one.items():
+        enc["val"][k] = ast.Name(id=p, ctx=ast.Load()) if (v_ == 1 and finals["-7"].get(k) == -7) else ast.Constant(value=v_)
+    dconst = [k for k in one if not isinstance(enc["val"][k], ast.Name) and finals["None"].get(k) != one.get(k)]
+    wrong = [label for label, v in probes[1:] if any(finals[label].get(k) != one.get(k) for k in dconst) or not dconst]
+    ctx.check("C15.H", f"{c.name}.__init__:undefined-exactly-when-None", not wrong,
+              f"{c.name}.__init__ gives {wrong} the encoding of an undefined value (fields {finals.get(wrong[0]) if wrong else None}; None gives {finals['None']}, 1 gives {one}): "
+              "a defined array entry is decoded as None", c.loc(init))
     fields = [f for f, _, _ in wire.struct_fields(ev, c)]
     disc = [f for f in fields if f in enc["none"] and f in enc["val"] and ev.try_eval(enc["none"][f], c.module, {"self": ClassRef(c.qualname)}) is not None]
     # discriminant: field assigned constants in both branches that differ
@@ -371,6 +391,10 @@ def check_variable(ctx, classes):
         init_params = A.param_names(init)[1:]
         for i, a in enumerate(rcall.args):
             rkw[init_params[i]] = a
+        # locals of the reader that only name a part of something read (`length = hdr.length`) stand for that expression
+        exprdefs = {k_: v_[1] for k_, v_ in varmap.items() if v_[0] == "expr" and not any(isinstance(x_, ast.Call) for x_ in ast.walk(v_[1]))
+                    and sum(1 for n_ in ast.walk(rd) if isinstance(n_, ast.Name) and n_.id == k_ and isinstance(n_.ctx, ast.Store)) == 1}
+        rkw = {k_: A.expand(v_, exprdefs) for k_, v_ in rkw.items()}
         # which self attributes are set from which ctor params
         attr_from_param = {}
         for st in A.body_nodes(init):
@@ -454,6 +478,7 @@ def check_variable(ctx, classes):
                     texpr = r[0][3]
                     if isinstance(texpr, ast.Name) and texpr.id in varmap and varmap[texpr.id][0] == "expr":
                         texpr = varmap[texpr.id][1]
+                    texpr = A.expand(texpr, exprdefs)
                     if isinstance(texpr, ast.BinOp) and isinstance(texpr.op, ast.Mult):
                         relem = ev.try_eval(texpr.left, m)
                         rcount = texpr.right
@@ -498,7 +523,8 @@ def check_variable(ctx, classes):
             for seg in segs[1:]:
                 if isinstance(seg, ast.Call):
                     wv = A.kwargs_of(seg).get("address", wv)
-            okw = isinstance(wv, ast.Call) and len(wv.args) == 1 and A.norm(wv.args[0]) == "self.address"
+            wargs = (list(wv.args) + [k_.value for k_ in wv.keywords]) if isinstance(wv, ast.Call) else []
+            okw = isinstance(wv, ast.Call) and len(wargs) == 1 and A.norm(wargs[0]) == "self.address"
             okr = False
             if okw and ch and len(ch) == 3:
                 sc = ev.try_eval(wv.func, m)
